@@ -121,7 +121,7 @@ def expected_events(pieces_at, cbs, raising):
     return ev
 
 
-def finalize_expected(ev, cbs, raising):
+def finalize_expected(ev, cbs, raising, exc_kind=None):
     out = []
     raised = False
     for e in ev:
@@ -131,7 +131,7 @@ def finalize_expected(ev, cbs, raising):
         if raising == e[1] and not raised:
             raised = True
             if "on_error" in cbs:
-                out.append((e[0], "on_error", (("exc", "RuntimeError", "boom from %s" % raising),)))
+                out.append((e[0], "on_error", (appsim.expected_exc(exc_kind, raising),)))
     return out
 
 
@@ -139,7 +139,7 @@ LOSS_TAIL = {"boundary": b"", "midframe": R.encode(R.BINARY, bytes(300))[:7], "m
              "midheader": b"\x81"}
 
 
-def scenario_case(ch, segidx, glue, tls, cbs, raising, reconnect=None, loss="boundary"):
+def scenario_case(ch, segidx, glue, tls, cbs, raising, reconnect=None, loss="boundary", exc_kind=None):
     pieces = []
     t = 1.0
     for i in segidx:
@@ -167,9 +167,11 @@ def scenario_case(ch, segidx, glue, tls, cbs, raising, reconnect=None, loss="bou
         if reconnect == "with-on_reconnect":
             cbs_all.append("on_reconnect")
     spec = {"url": url, "callbacks": cbs_all, "raising": raising, "attempts": attempts, "run_kwargs": run_kwargs, "horizon": 200.0}
+    if exc_kind:
+        spec["raise_exc"] = exc_kind
     run = appsim.AppRun(ch, spec)
     res = run.execute()
-    label = "segments %s%s %s callbacks=%s raising=%s%s" % ([SEGS[i][0] for i in segidx], " (first glued to the 101)" if glue else "", "TLS" if tls else "plain",
+    label = "%ssegments %s%s %s callbacks=%s raising=%s%s" % ("[callback raises %s] " % exc_kind if exc_kind else "", [SEGS[i][0] for i in segidx], " (first glued to the 101)" if glue else "", "TLS" if tls else "plain",
                                                         ",".join(c[3:] for c in cbs_all) or "none", raising, " reconnect=%s (first connection lost at: %s)" % (reconnect, loss) if reconnect else "")
     sig = {"tls": tls, "glue": glue}
     if reconnect and loss != "boundary":
@@ -184,10 +186,11 @@ def scenario_case(ch, segidx, glue, tls, cbs, raising, reconnect=None, loss="bou
         base = 3.0
         exp.append((base, "on_reconnect" if reconnect == "with-on_reconnect" else "on_open", ()))
     shifted = [((0.0 if (glue and k == 0) else tt) + base, d) for k, (tt, d) in enumerate(pieces)]
-    exp = finalize_expected(exp + expected_events(shifted, cbs_all, raising), cbs_all, raising)
+    exp = finalize_expected(exp + expected_events(shifted, cbs_all, raising), cbs_all, raising, exc_kind)
+    want_exc = appsim.expected_exc(exc_kind, raising) if raising else None
     end_abs = end_t + base
     got = [e for e in run.callback_trace() if e[1] in ("on_open", "on_reconnect", "on_message", "on_data", "on_ping", "on_pong") or
-           (e[1] == "on_error" and e[2] and isinstance(e[2][0], tuple) and e[2][0][:2] == ("exc", "RuntimeError"))]
+           (e[1] == "on_error" and e[2] and isinstance(e[2][0], tuple) and (e[2][0][:2] == ("exc", "RuntimeError") or (exc_kind and (e[2][0] == want_exc or e[0] < end_abs))))]
     got = [e for e in got if e[0] < end_abs or e[1] != "on_error"]
     if got != exp:
         i = 0
@@ -239,6 +242,11 @@ def iter_cases(desc):
                             if raising is not None and raising not in cbs:
                                 continue
                             yield {"segidx": list(segidx), "glue": glue, "tls": desc["tls"], "cbs": list(cbs), "raising": raising, "reconnect": rc}
+        # what the callback raises: every kind of the exception alphabet, from every callback, on a fixed mixed history
+        for kind in sorted(appsim.EXC_KINDS):
+            for raising in ("on_open", "on_message", "on_data", "on_ping", "on_pong"):
+                for segidx in ((6, 5), (4, 0, 1)):
+                    yield {"segidx": list(segidx), "glue": False, "tls": desc["tls"], "cbs": list(CB7), "raising": raising, "reconnect": None, "exc": kind}
         for err in ("epipe", "econnreset"):
             for split in (False, True):
                 yield {"sendfail": True, "err": err, "split": split, "tls": desc["tls"]}
@@ -299,7 +307,7 @@ def run_case(c, choices=()):
     ch = Chooser(list(choices))
     if c.get("sendfail"):
         return send_fail_case(ch, c)
-    return scenario_case(ch, tuple(c["segidx"]), c["glue"], c["tls"], tuple(c["cbs"]), c["raising"], c["reconnect"], c.get("loss", "boundary"))
+    return scenario_case(ch, tuple(c["segidx"]), c["glue"], c["tls"], tuple(c["cbs"]), c["raising"], c["reconnect"], c.get("loss", "boundary"), c.get("exc"))
 
 
 def run_task(desc):
